@@ -6,6 +6,16 @@ NAME = 'u1_vlq'
 PROPS = ['C11', 'C06', 'C05', 'C03', 'C01', 'C02']
 
 
+# mutation canaries (thorough tier): textual mutations of the EXTRACTED copy that must each fail an obligation of the named item
+MUTANTS = [
+    ('vlq::parse_vlq_segment_into', 'shift \\+= 5;', 'shift += 6;'),
+    ('vlq::parse_vlq_segment_into', 'if sign != 0 \\{', 'if sign == 0 {'),
+    ('vlq::parse_vlq_segment_into', 'cur != 0 \\|\\| shift != 0', 'cur != 0'),
+    ('vlq::encode_vlq', 'num >>= 5;', 'num >>= 4;'),
+    ('vlq::encode_vlq', '\\(\\(-num\\) << 1\\) \\+ 1', '((-num) << 1)'),
+]
+
+
 def build(u):
     u.use_overlay('u1_vlq.ctr')
     u.prelude('common.rs')
